@@ -60,12 +60,14 @@ def zoom_cases(draw):
         for m in base_mults[1:]:
             cb = model.coarsen_bins(bt, m)
             others.append(draw(gen.pixels(gen.n_bins(cb), symmetric, count=st.integers(1, 500), extra_cols=[gen.DYADIC], max_nnz=40)))
-    ladder = draw(st.sampled_from(["free", "free", "2-3-6", "2-4-6-12", "pow2", "non-derivable"]))
+    ladder = draw(st.sampled_from(["free", "free", "2-3-6", "2-4-6-12", "pow2", "non-derivable", "base-only"]))
     lcm_ = math.lcm(*base_mults)
     if ladder == "2-3-6":
         tm = [2, 3, 6]
     elif ladder == "2-4-6-12":
         tm = [2, 4, 6, 12]
+    elif ladder == "base-only":
+        tm = [base_mults[0]]         # the file then holds the base level(s) only
     elif ladder == "pow2":
         tm = [base_mults[0] * 2 ** t for t in range(1, draw(st.integers(2, 4)))]
     else:
@@ -81,7 +83,7 @@ def zoom_cases(draw):
             tm = derivable or [lcm_]
     else:
         tm = derivable or [lcm_ * 2]
-    if len(base_mults) >= 2 and ladder != "non-derivable" and draw(st.booleans()):
+    if len(base_mults) >= 2 and ladder not in ("non-derivable", "base-only") and draw(st.booleans()):
         tm = tm + [2 * m_ for m_ in base_mults]     # one derived level per base, processed in ascending order
     if draw(st.booleans()):
         tm = tm + [draw(st.sampled_from(tm))]      # duplicate member
